@@ -24,7 +24,7 @@ func (c *checkDef) Owns(prop string) bool {
 	return false
 }
 
-func racePackages() []string { return []string{"./cache", "./utils/event"} }
+func racePackages() []string { return []string{"./cache", "./utils/event", "./proxy"} }
 
 
 var commonAssumptions = []string{
@@ -102,7 +102,7 @@ func checkC13() *checkDef {
 }
 
 func allChecks() []*checkDef {
-	return []*checkDef{checkC01(), checkC03(), checkC04(), checkC06(), checkC07(), checkC08(), checkC09(), checkC10(), checkC11(), checkC12(), checkC13(), checkC14(), checkC15(), checkC19()}
+	return []*checkDef{checkC01(), checkC03(), checkC04(), checkC05(), checkC06(), checkC07(), checkC08(), checkC09(), checkC10(), checkC11(), checkC12(), checkC13(), checkC14(), checkC15(), checkC19()}
 }
 
 func freshRuns(tier string) []run {
@@ -220,7 +220,25 @@ func checkC09() *checkDef {
 		Rule:        "each (backend, history, fault point) triple; distinct by triple; non-trivial = distinct status pattern per fault class",
 		Assumptions: seqAssumptions,
 		Runs: func(tier string) []run {
-			return []run{{Pkg: "./proxy", Scenario: "proxy/fault", Params: map[string]any{}}}
+			k := 2
+			if tier == "thorough" {
+				k = 3
+			}
+			var ps []psched
+			for _, be := range []string{"memory", "file"} {
+				n := func(s string) string { return s + "/" + be }
+				// an entry deleted at every point of a hit, of a 304 revalidation, of a refresh and of a coalesced hand-over
+				ps = append(ps, psched{Name: n("delete-during-hit"), Backend: be, Clients: 1, Start: "fresh", Outcome: "cacheable", Evictor: "delete", Prop: "C09"})
+				ps = append(ps, psched{Name: n("delete-during-304"), Backend: be, Clients: 1, Start: "stale-304", Outcome: "cacheable", Evictor: "delete", Prop: "C09"})
+				ps = append(ps, psched{Name: n("delete-during-refresh"), Backend: be, Clients: 1, Start: "stale-200", Outcome: "cacheable", Evictor: "delete", Prop: "C09"})
+				ps = append(ps, psched{Name: n("delete-during-handover"), Backend: be, Clients: 2, Start: "cold", Outcome: "cacheable", Evictor: "delete", Prop: "C09"})
+				ps = append(ps, psched{Name: n("delete-during-handover-304"), Backend: be, Clients: 2, Start: "stale-304", Outcome: "cacheable", Evictor: "delete", Prop: "C09"})
+				ps = append(ps, psched{Name: n("other-client-hangs-up"), Backend: be, Clients: 2, Start: "cold", Outcome: "cacheable", Cancel: 2, Slow: true, Prop: "C09"})
+			}
+			return []run{
+				{Pkg: "./proxy", Scenario: "proxy/fault", Params: map[string]any{}},
+				{Pkg: "./proxy", Scenario: "proxy/sched", Params: ps, K: k, E: 1, F: 1, Horizon: 8000},
+			}
 		},
 	}
 }
@@ -263,6 +281,69 @@ func checkC11() *checkDef {
 				{Pkg: "./proxy/certs", Scenario: "certs/histories", Params: map[string]any{"depth": 4}, Workers: 4},
 				{Pkg: "./proxy/certs", Scenario: "certs/sched", Params: map[string]any{}, K: k, E: 0, Horizon: 3000},
 			}
+		},
+	}
+}
+
+type psched struct {
+	Name    string `json:"name"`
+	Backend string `json:"backend"`
+	Clients int    `json:"clients"`
+	Start   string `json:"start"`
+	Outcome string `json:"outcome"`
+	Cancel  int    `json:"cancel"`
+	Evictor string `json:"evictor"`
+	Slow    bool   `json:"slow"`
+	Prop    string `json:"prop"`
+	AdvanceS int   `json:"advance_s,omitempty"`
+}
+
+func coalescingScenarios(prop string, clients int) []psched {
+	var ps []psched
+	for _, be := range []string{"memory", "file"} {
+		n := func(s string) string { return s + "/" + be + "/clients=" + itoa(clients) }
+		for _, start := range []string{"cold", "fresh", "stale-304", "stale-200"} {
+			ps = append(ps, psched{Name: n(start), Backend: be, Clients: clients, Start: start, Outcome: "cacheable", Prop: prop})
+		}
+		ps = append(ps, psched{Name: n("cold-no-store"), Backend: be, Clients: clients, Start: "cold", Outcome: "no-store", Prop: prop})
+		ps = append(ps, psched{Name: n("cold-500"), Backend: be, Clients: clients, Start: "cold", Outcome: "status-500", Prop: prop})
+		ps = append(ps, psched{Name: n("cold-slow-readers"), Backend: be, Clients: clients, Start: "cold", Outcome: "cacheable", Slow: true, Prop: prop})
+		ps = append(ps, psched{Name: n("cold-client1-disconnects"), Backend: be, Clients: clients, Start: "cold", Outcome: "cacheable", Cancel: 1, Prop: prop})
+		ps = append(ps, psched{Name: n("cold-client2-disconnects"), Backend: be, Clients: clients, Start: "cold", Outcome: "cacheable", Cancel: 2, Prop: prop})
+		ps = append(ps, psched{Name: n("stale-client1-disconnects"), Backend: be, Clients: clients, Start: "stale-304", Outcome: "cacheable", Cancel: 1, Prop: prop})
+	}
+	return ps
+}
+
+func proxyRaceScenarios() []psched {
+	var ps []psched
+	for _, be := range []string{"memory", "file"} {
+		n := func(s string) string { return s + "/" + be }
+		ps = append(ps, psched{Name: n("race-cold"), Backend: be, Clients: 2, Start: "cold", Outcome: "cacheable", Prop: "C15"})
+		ps = append(ps, psched{Name: n("race-fresh"), Backend: be, Clients: 2, Start: "fresh", Outcome: "cacheable", Prop: "C15"})
+		ps = append(ps, psched{Name: n("race-stale-304"), Backend: be, Clients: 2, Start: "stale-304", Outcome: "cacheable", Prop: "C15"})
+		ps = append(ps, psched{Name: n("race-stale-304-delete"), Backend: be, Clients: 2, Start: "stale-304", Outcome: "cacheable", Evictor: "delete", Prop: "C15"})
+		ps = append(ps, psched{Name: n("race-no-store"), Backend: be, Clients: 2, Start: "cold", Outcome: "no-store", Prop: "C15"})
+		ps = append(ps, psched{Name: n("race-hit-vs-expiry-revalidation"), Backend: be, Clients: 2, Start: "fresh", Outcome: "cacheable", AdvanceS: 101, Prop: "C15"})
+	}
+	return ps
+}
+
+func checkC05() *checkDef {
+	return &checkDef{
+		ID: "C05", Title: "Concurrent identical requests share one origin fetch; each gets a full answer", Level: "model_checking",
+		LevelText: "Stateless exploration of all schedules (K preemptions, F delayed switches) of N=2 (3 thorough) clients calling the real Proxy.ServeHTTP for the same GET, with the first origin response held at a gate until every other thread is blocked (so the clients really overlap in the default schedule, and every deviation explores another arrival order), on a cold, fresh, stale(304) and stale(200) key, with cacheable, no-store and 500 outcomes, slow readers, and a thread that cancels one client's context at any point; both backends. Oracle per schedule: exactly one origin request for a cold/stale cacheable key and none for a fresh one; every client that did not hang up receives the complete current body with the origin's status.",
+		LevelNote: "Trusted: instrumenter seams incl. the instrumented copy of x/sync/singleflight, in-memory response writer (mode ii), in-process origin with the context check of a real transport. Write-only metric counters and the read-only policy switches are not scheduling points (listed as demoted).",
+		Technique: "stateless model checking of the implementation: preemption/delay-bounded exhaustive schedule enumeration of concurrent requests with a gated origin",
+		DesignRef: "DESIGN.md section 4 C05",
+		Rule:        "all schedules within K/F of each (backend, start state, outcome, disturbance) scenario; distinct by choice sequence; non-trivial = distinct (origin request count, per-client status/length) outcome",
+		Assumptions: commonAssumptions,
+		Runs: func(tier string) []run {
+			k, n := 2, 2
+			if tier == "thorough" {
+				k, n = 3, 3
+			}
+			return []run{{Pkg: "./proxy", Scenario: "proxy/sched", Params: coalescingScenarios("C05", n), K: k, E: 1, F: 1, Horizon: 8000}}
 		},
 	}
 }
@@ -347,6 +428,7 @@ func checkC15() *checkDef {
 			return []run{
 				{Pkg: "./cache", Scenario: "cache/sched", Params: ps, K: k, E: 1, Horizon: 5000, Race: true},
 				{Pkg: "./utils/event", Scenario: "event/sched", Params: eventRaceScenarios(), K: k + 1, E: 1, Horizon: 2000, Race: true, Workers: 4},
+				{Pkg: "./proxy", Scenario: "proxy/sched", Params: proxyRaceScenarios(), K: k, E: 1, F: 1, Horizon: 8000, Race: true},
 			}
 		},
 	}
